@@ -57,7 +57,7 @@ Definition check_imp_model := mismatches imp_model_ok.
 (* (JSON object, Go's sorted expansion keys) *)
 Definition keys_model_ok (c : cj * list sstr) : bool :=
   let '(j, ks) := c in
-  list_eqb str_eqb (map fst (expansion_keys (parse (to_json j)))) (map s_ ks).
+  list_eqb str_eqb (map fst (expansion_keys (parse_top (to_json j)))) (map s_ ks).
 Definition check_keys_model := mismatches keys_model_ok.
 
 (* (specifier, ok, name, subpath) *)
